@@ -84,6 +84,92 @@ def run_cut(ctx, st, pool):
         ctx.sample({'stream': 'cut', 'wb': t[:200], 'sec': s, 'item': i, 'impl': impl[0], 'model': outs[0]})
 
 
+# ------------------------------------------------------------------ verified cut (repo patch 31)
+def run_memberdef(ctx, st, pool):
+    """Model `memberDefinition` / `cutVerified` vs parser.get_workflow_definition / get_action_definition, with the
+    YAML oracle answered by the real parse_yaml / safe_yaml.dump; stream `yamlrt` ties the one assumption of
+    `cut_is_the_member`: a dumped member parses back to itself."""
+    sp = st['sp']
+    exc = st['exc']
+    from mistral.utils import safe_yaml
+    drv = ctx.driver()
+    cases = [c for c in cut_cases(ctx, st, pool) if c[1] in ('workflows:', 'actions:')]
+    cases = cases[:ctx.n(1500, 6000)]
+    cuts = drv.batch('lang.cutDef', [{'wb': t, 'sec': s, 'item': i + ':'} for t, s, i, _ in cases])
+    args = []
+    impl = []
+    members = []
+    parsed_cache = {}
+    for (text, sec, item, origin), mcut in zip(cases, cuts):
+        secname = sec[:-1]
+        if text not in parsed_cache:
+            try:
+                parsed_cache[text] = sp.parse_yaml(text)
+            except exc.DSLParsingException:
+                parsed_cache[text] = None
+            except Exception:
+                parsed_cache[text] = None
+        d = parsed_cache[text]
+        section = d.get(secname) if isinstance(d, dict) else None
+        known = isinstance(section, dict) and item in section
+        member = {item: section[item]} if known else None
+        cut_parses = False
+        dump = ''
+        if known:
+            if mcut is not None:
+                try:
+                    cut_parses = sp.parse_yaml(mcut) == member
+                except exc.DSLParsingException:
+                    cut_parses = False
+            dump = safe_yaml.dump(member, default_flow_style=False, sort_keys=False)
+        fn = sp.get_workflow_definition if secname == 'workflows' else sp.get_action_definition
+        kind, det, r = E.guarded(lambda: fn(text, item), 1.0)
+        if kind == 'ok':
+            impl.append(r)
+        elif kind == 'undeclared' and det['exc'] == 'ValueError':
+            impl.append(None)
+        else:
+            impl.append({'error': det})
+        members.append((known, member, cut_parses))
+        args.append({'wb': text, 'sec': secname, 'name': item, 'known': known, 'cutParses': cut_parses, 'dump': dump})
+    outs = drv.batch('lang.cutVerified', args)
+    seen_rt = set()
+    for (text, sec, item, origin), a, io, mo, (known, member, cut_parses) in zip(cases, args, impl, outs, members):
+        ctx.evaluated('memberdef', [text, sec, item], nontrivial=known)
+        ctx.count('memberdef', 'origin:' + origin.split(':')[0])
+        if known:
+            ctx.count('memberdef', 'cut-kept' if cut_parses else 'cut-replaced-by-dump')
+        else:
+            ctx.count('memberdef', 'member-unknown:' + ('no-section' if io is None else 'plain-cut'))
+        if mo != io:
+            ctx.disagree('memberdef', {'wb': text, 'sec': sec, 'item': item, 'origin': origin, 'known': known,
+                                       'cutParses': cut_parses}, mo, io)
+        if known:
+            # monitor (the statement itself): the text returned for a member of the parsed workbook is that member
+            ok = False
+            if isinstance(io, str):
+                try:
+                    ok = sp.parse_yaml(io) == member
+                except exc.DSLParsingException:
+                    ok = False
+            if not ok:
+                ctx.violation('the definition text of %s member %r of a workbook is not that member: %r' % (
+                    sec[:-1], item, io if not isinstance(io, str) else io[:80]),
+                    {'kind': 'memberdef', 'text': text, 'section': sec[:-1], 'member': item},
+                    {'kind': 'member-definition-wrong', 'how': 'raises' if not isinstance(io, str) else 'other-text'})
+            # the assumption of cut_is_the_member
+            key = a['dump']
+            if key not in seen_rt:
+                seen_rt.add(key)
+                try:
+                    rt = sp.parse_yaml(a['dump']) == member
+                except exc.DSLParsingException:
+                    rt = False
+                ctx.evaluated('yamlrt', key, nontrivial=True)
+                if not rt:
+                    ctx.disagree('yamlrt', {'member': repr(member)[:300], 'dump': a['dump'][:300]}, 'parse(dump m) = m', 'differs')
+
+
 # ------------------------------------------------------------------ norm
 class NotEncodable(Exception):
     pass
@@ -450,7 +536,9 @@ WITNESSES = {
 
 
 def run_witness(ctx, st):
-    """The counter-witnesses of cutDef_correct_full_fails, replayed end to end on the real service."""
+    """The counter-witnesses of cutDef_correct_full_fails (what the plain text cut gets wrong), replayed end to end
+    on the real service: the cut itself is still wrong (model == _parse_def_from_wb), the STORED definition must be
+    the member (theorem cut_is_the_member / witnesses_repaired)."""
     sp, db_api = st['sp'], st['db_api']
     drv = ctx.driver()
     for wname, (member, want_clash) in (('taskClash', ('wf2', 'earlier-line-equals-member-name')),
@@ -483,9 +571,7 @@ def run_witness(ctx, st):
                 ctx.violation('text cut out of workbook for workflows member %r is not that member (%s): %r' % (member, want_clash, stored[:80]),
                               {'kind': 'doc', 'entry': 'parse.wb', 'text': text, 'origin': 'witness:' + wname, 'member': member, 'cut': stored},
                               {'kind': 'cut-from-workbook-wrong', 'layout': 'plain', 'clash': want_clash})
-            else:
-                # the code no longer has the defect: the _full_fails theorem is out of date with the code
-                ctx.disagree('witness', {'name': wname, 'what': 'counter-witness no longer fails on the implementation'}, 'fails', 'holds')
+            # since repo patch 31 (verified cut) the witnesses are regressions: the stored definition is the member
         finally:
             E.clean_db()
 
@@ -493,6 +579,7 @@ def run_witness(ctx, st):
 # ------------------------------------------------------------------ entry points used by props/C14.py
 def correspond_model(ctx, st, pool):
     run_cut(ctx, st, pool)
+    run_memberdef(ctx, st, pool)
     run_norm(ctx, st, pool)
     run_graph(ctx, st)
     run_witness(ctx, st)
@@ -509,5 +596,15 @@ def replay_model(ctx, st, r):
         print('replay graph: impl', obs)
         if obs['verdict'] == 'ok':
             ctx.violation('validation accepted a workflow that is not well-formed', r, {'kind': 'accepted-not-wellformed'})
+    elif r.get('kind') == 'memberdef':
+        sp = st['sp']
+        fn = sp.get_workflow_definition if r['section'] == 'workflows' else sp.get_action_definition
+        kind, det, out = E.guarded(lambda: fn(r['text'], r['member']), 1.0)
+        member = {r['member']: sp.parse_yaml(r['text'])[r['section']][r['member']]}
+        ok = kind == 'ok' and sp.parse_yaml(out) == member
+        print('replay memberdef: %s %r -> %r: %s' % (kind, r['member'], (out or det), 'is the member' if ok else 'NOT the member'))
+        if not ok:
+            ctx.violation('the definition text of a workbook member is not that member', r,
+                          {'kind': 'member-definition-wrong', 'how': 'raises' if kind != 'ok' else 'other-text'})
     elif r.get('kind') == 'norm':
         print('replay norm: see stream norm')
